@@ -26,7 +26,7 @@ def zeroHash : Hash := List.replicate 32 0
 
 inductive Err
   | height | noprev | prevheight | timestamp | fewkeys | pubkey | fewsigs | sigdata | multisig
-  | blockroot | stateroot | notip | treesize | hashfile | genesis | other
+  | blockroot | stateroot | notip | treesize | hashfile | genesis | payload | other
 deriving DecidableEq, Repr
 
 structure Tx where
@@ -45,6 +45,8 @@ structure Header where
   /-- `NewChainConfig.Peers` ids of the consensus payload, when the header announces a configuration -/
   newCfg : Option (List Key)
   lastCfg : Nat
+  /-- the consensus payload decodes (`vconfig.VbftBlock` succeeds); `newCfg` / `lastCfg` are its contents then -/
+  payloadOk : Bool := true
 deriving DecidableEq
 
 structure Block where
@@ -276,9 +278,10 @@ def verifyHeader (p : Params) (s : State) (hd : Header) (set : List Key) : Excep
         else match verifyMulti p hd.hash hd.bookkeepers m hd.sigs with
           | .error e => .error e
           | .ok _ =>
-            match hd.newCfg with
-            | some c => .ok (dedupKeys c)
-            | none => .ok set
+            if !hd.payloadOk then .error .payload
+            else match hd.newCfg with
+              | some c => .ok (dedupKeys c)
+              | none => .ok set
 
 /-! ## Block execution and persistence -/
 
@@ -479,7 +482,8 @@ def loadPeers (d : Durable) (m : Mem) : Except Err (List Key) :=
   match (d.blocks.blockAt m.currHash).map (·.header) with
   | none => .error .other
   | some hd =>
-    match hd.newCfg with
+    if !hd.payloadOk then .error .payload
+    else match hd.newCfg with
     | some c => .ok (dedupKeys c)
     | none =>
       match m.headerIndex hd.lastCfg with
@@ -487,7 +491,9 @@ def loadPeers (d : Durable) (m : Mem) : Except Err (List Key) :=
       | some h =>
         match (d.blocks.blockAt h).map (·.header) with
         | none => .error .other
-        | some ch => match ch.newCfg with
+        | some ch =>
+          if !ch.payloadOk then .error .payload
+          else match ch.newCfg with
           | some c => .ok (dedupKeys c)
           | none => .error .other
 
